@@ -98,6 +98,9 @@ namespace cgi {
 				return;
 			}
 
+			// terminate the block so that a last key or value without its NUL can't be read past the buffer
+			buffer_.back() = 0;
+
 			char const *p=&buffer_[sep_ + 1];
 			while(p < &buffer_.back()) {
 				char *key=pool_.add(p);
